@@ -1438,7 +1438,7 @@ func (P) Generate(g *core.Gen) {
 		}
 	}
 	// ---- legacy: random shapes
-	for k := 0; k < g.N(2000, 40000); k++ {
+	for k := 0; k < g.N(1600, 40000); k++ {
 		nIn, nOut := shapeCounts(r)
 		tx, _ := randTx(r, nIn, nOut)
 		sig := randSig(r)
@@ -1482,7 +1482,7 @@ func (P) Generate(g *core.Gen) {
 			}
 		}
 	}
-	for k := 0; k < g.N(2000, 40000); k++ {
+	for k := 0; k < g.N(1600, 40000); k++ {
 		nIn, nOut := shapeCounts(r)
 		tx, spent := randTx(r, nIn, nOut)
 		cls := "wit-rand"
@@ -1547,7 +1547,7 @@ func (P) Generate(g *core.Gen) {
 		}
 	}
 	validTap := []uint32{0, 1, 2, 3, 0x81, 0x82, 0x83}
-	for k := 0; k < g.N(2000, 40000); k++ {
+	for k := 0; k < g.N(1600, 40000); k++ {
 		nIn, nOut := shapeCounts(r)
 		tx, spent := randTx(r, nIn, nOut)
 		cls := "tap-rand"
@@ -1757,7 +1757,7 @@ func (P) Generate(g *core.Gen) {
 	}
 
 	// ---- removeOpcodeRaw / removeOpcodeByData
-	for k := 0; k < g.N(2000, 40000); k++ {
+	for k := 0; k < g.N(1600, 40000); k++ {
 		sig := randSig(r)
 		mal := r.Chance(1, 5)
 		s := randScriptCode(r, sig, mal)
